@@ -9,7 +9,7 @@ HARNESS = {'name': 'wrappers',
            'timeout': 1500}
 
 CONFIG = {
-    'subs': ['Wrap', 'Split', 'RecordIO'],
+    'subs': ['Wrap', 'Split', 'RecordIO', 'TIter'],
     'props_modules': ['DmlcModel.Props.C10', 'DmlcModel.Props.C10Witness'],
     'driver': 'Wrap',
     'harness': HARNESS,
@@ -24,22 +24,19 @@ CONFIG = {
             'random programs; every base-split call contains a scheduling point. Non-trivial = a wrapper was constructed.',
     'assumptions': ['the base split is a function of the partition: after BeforeFirst / ResetPartition its next pass is the chunk '
                     'sequence of a freshly constructed split (C05); the model takes that chunk list from the Split model',
-                    'ThreadedIter facts C07_order, C07_produced, C07_end_sound, C07_cells, C08_fresh_pass (+ the ghost-field '
-                    'invariants srcEnd / noThrow) are HYPOTHESES (structure TIterFacts) of C10_threaded_transparent and of the '
-                    'chunk clause of C10_race_free until Props/C07, C08 are integrated',
+                    'the ThreadedIter facts (TIterFacts) are discharged from Props.C07 / Props.C08 (Wrap/TIterLink.lean): '
+                    'C10_threaded_transparent and C10_race_free hold for every reachable state of DmlcModel.TIter; termination of '
+                    'the calls is not claimed (C07 proves deadlock freedom only)',
                     'sequentially consistent memory; a data race is an overlap of the modelled access points (entry/exit of base '
                     'split methods, chunk extraction / blob reading); TSan was not run',
                     'chunk lengths < 2^64 (size_t); little-endian host (cache length prefix)',
-                    'a cache file left by an object destroyed before its first pass ended is outside the transparency theorem '
-                    '(open finding C10-F3, class partial-cache-reuse)'],
+                    'a source failure (dmlc::Error from the base split) during the destructor\'s drain leaves a partial cache '
+                    'file; the theorems are about failure-free base passes'],
     'trusted_base': ['modelled by hand, tied by correspondence only (results of every operation incl. cache file bytes, under '
                      'native and explored schedules): control flow of CachedInputSplit / ThreadedInputSplit; which thread calls '
                      'the base split is read from the source (Gen items resetOnCaller / resetInRewind / bfRecycles)',
                      'the ThreadedIter transition system is DmlcModel.TIter (tied to the code by the C07-C09 harness)'],
-    'partial': ['C10_threaded_transparent (hypothesis TIterFacts = statements of C07/C08, not yet imported)',
-                'C10_race_free (chunk clause uses TIterFacts.cells = C07_cells)',
-                'C10_cached_transparent (later object: only when the earlier object ended its first pass or was rewound; '
-                'otherwise open finding C10-F3)'],
+    'partial': [],
 }
 
 MANIFEST = {
@@ -48,7 +45,7 @@ MANIFEST = {
             'arbitrary base chunk sequence delivers the base pass in pass 1, restarts over all chunks after BeforeFirst in any '
             'reachable state, and a later object reusing a completed file replays all chunks; ThreadedInputSplit = the '
             'ThreadedIter transition system with the base split as source: every pass under every schedule is an initial segment '
-            '/ the whole of the base chunk sequence (corollary of the C07/C08 statements, taken as hypotheses), and the calling '
+            '/ the whole of the base chunk sequence (corollary of the C07/C08 theorems), and the calling '
             'thread never overlaps the prefetch thread inside the base split or on a lent chunk. Model tied to the real wrappers '
             'by differential execution (native threads in forked children under ASan with annotated vectors; schedule '
             'exploration under a controlled scheduler with an entry/exit monitor in the base split); independent oracle: stream '
@@ -57,8 +54,8 @@ MANIFEST = {
     'design_ref': 'DESIGN.md section 7 C10, section 6 F4 F5',
     'note': 'F4 (cache reader buffer half the size it reads into) repaired by fixes/C10-1.diff, F5 (ResetPartition touches the '
             'base split on the caller thread) by fixes/C10-2.diff; both are read from the source each run and the theorems need '
-            'the repairs. Open finding C10-F3: a cache file left by an object destroyed during its first pass is reused as if '
-            'complete. ThreadedIter facts are hypotheses (TIterFacts) until C07/C08 are integrated; TSan not run.',
+            'the repairs. C10-F3 (a cache file left by an object destroyed during its first pass was reused as if complete) '
+            'repaired by fixes/C10-3.diff (destructor finishes the pass; Gen item dtorDrains). TSan not run.',
     'technique': 'Lean 4 proof (state-machine invariant for the cache; corollary of the ThreadedIter invariants for the '
                  'prefetcher) + source-to-Lean translator + differential correspondence (native + explored schedules) + '
                  'sanitizers',
